@@ -1253,6 +1253,10 @@ func (ev *EvalCtx) evalLoc(e Expr) []locItem {
 func covers(a, b locItem) *Term {
 	switch a.kind {
 	case "any", "any-old":
+		// memory only: ghost effects are never implied (a caller havocs exactly the ghosts a callee lists)
+		if b.kind == "ghost" {
+			return TFalse
+		}
 		return TTrue
 	case "row":
 		if b.kind == "row" || b.kind == "loc" {
